@@ -70,7 +70,27 @@ def expect_tlv(st, ty, ln, payload):
     if ty == 0x0D:
         b0 = sel('wifi_rssi', 0)
         sx = ('sxb', b0)
-        ok = len(payload) == 4 and eqb(payload[3], b0) and all(eqb(payload[k], sx) or st.canon(payload[k]) == st.canon(sx) for k in range(3))
+        def low_is(g):
+            # the least significant byte is the supplied byte: structurally, or as byte 0 of (that byte + a multiple of 256)
+            if eqb(g, b0):
+                return True
+            g = st.canon(g)
+            if g[0] == 'byte' and g[2] == 0:
+                from ..terms import lin_of
+                l = lin_of(g[1])
+                if l is not None and len(l.co) == 1 and l.k % 256 == 0:
+                    (a, c), = l.co.items()
+                    d = st.dom(a)
+                    return c == 1 and st.canon(a) == st.canon(b0) and d.lo >= 0 and d.hi <= 255
+            return False
+
+        def fill_is(g):
+            # a sign-fill byte: structurally sxb(b0), or - on a path that knows the sign - the constant it denotes there
+            if eqb(g, sx) or st.canon(g) == st.canon(sx):
+                return True
+            d0, dg = st.dom(b0), st.dom(g)
+            return (d0.lo >= 128 and dg.lo == dg.hi == 255) or (d0.hi <= 127 and dg.lo == dg.hi == 0)
+        ok = len(payload) == 4 and low_is(payload[3]) and all(fill_is(payload[k]) for k in range(3))
         return ok, 'RSSI = BE32 of the sign-extended int8 dBm value'
     if ty == 0x14:
         want = [C(0xE0), ZERO, ZERO, ZERO]
